@@ -1,95 +1,151 @@
 ----------------------------- MODULE SmartCalc -----------------------------
 (***************************************************************************)
 (* smartcalc as a state machine (DESIGN 2 and 4.2).  The library is         *)
-(* sequential; every action below is one public call and its observation    *)
-(* (variable "last") is what the call returns.                              *)
+(* sequential and single-threaded; every public call is atomic for its      *)
+(* caller and its observation is what the call returns.                     *)
 (*                                                                         *)
 (*   calc   the calculator: separators, format settings, default zone,      *)
 (*          rate overrides, custom rules, unit families                     *)
-(*   sess   session id -> [lang, lines, env, fresh]                         *)
+(*   sess   session id -> [lang, lines, pos, env, fresh]                    *)
+(*   run    the execute_session call in flight (its loop is modelled step   *)
+(*          by step: Begin, one EvalLine per line, End), or NoRun           *)
 (*   today  the environment's current UTC day number                        *)
-(*   last   observation of the most recent call                             *)
+(*   last   observation of the most recent completed call                   *)
+(*                                                                         *)
+(* The loop of execute_session is the only multi-step activity.  RunLines   *)
+(* is its macro-step (all lines at once); MC_SmartCalc checks that the      *)
+(* step-by-step loop computes exactly RunLines (LoopIsRunLines), so the     *)
+(* generator and trace configurations may use the macro-step.               *)
 (***************************************************************************)
 EXTENDS Meaning, FiniteSets, TLC
 
-VARIABLES calc, sess, today, last
-vars == <<calc, sess, today, last>>
+VARIABLES calc, sess, run, today, last
+vars == <<calc, sess, run, today, last>>
 
-EmptyEnv == <<>>
+NoRun == [active |-> FALSE]
 
-DefaultCalc ==
-  [dec |-> ",", tho |-> ".",
-   num |-> [d |-> 2, remove |-> TRUE, round |-> TRUE],
-   pct |-> [d |-> 2, remove |-> TRUE, round |-> TRUE],
-   mon |-> [remove |-> FALSE, round |-> TRUE],
-   tz  |-> [name |-> "UTC", off |-> 0],
-   rates |-> <<>>,        \* currency -> rate overrides set through update_currency
-   rules |-> <<>>,        \* sequence of registered custom rules (C18)
-   fams  |-> <<>>]        \* user-defined unit families (C18)
-
-NewSess == [lang |-> "", lines |-> <<>>, env |-> EmptyEnv, fresh |-> FALSE]
+NewSess == [lang |-> "", lines |-> <<>>, pos |-> 1, env |-> EmptyEnv, fresh |-> FALSE]
 
 Ctx(lang, env) == [calc |-> calc, lang |-> lang, today |-> today, env |-> env]
 
-\* the loop of execute_session: one slot per line, in order; an erroneous line does not stop the loop
-RECURSIVE RunLines(_, _, _)
-RunLines(ctx, lines, acc) ==
-  IF lines = <<>> THEN [slots |-> acc, env |-> ctx.env]
-  ELSE LET m == LineMeaning(ctx, Head(lines))
-       IN  RunLines([ctx EXCEPT !.env = m.env], Tail(lines), Append(acc, m.slot))
-
-Init ==
+InitCalc ==
   /\ calc = DefaultCalc
   /\ sess = <<>>
-  /\ today \in Int
+  /\ run = NoRun
   /\ last = [call |-> "none"]
+Init == InitCalc /\ today \in Int
 
-(* ---- evaluation ------------------------------------------------------- *)
-Execute(lang, lines) ==
-  /\ LET r == RunLines(Ctx(lang, EmptyEnv), lines, <<>>)
-     IN  last' = [call |-> "execute", status |-> TRUE, slots |-> r.slots]
-  /\ UNCHANGED <<calc, sess, today>>
+Idle == ~run.active
 
+(* ---- sessions --------------------------------------------------------- *)
 NewSession(s) ==
+  /\ Idle
   /\ sess' = [x \in (DOMAIN sess) \cup {s} |-> IF x = s THEN NewSess ELSE sess[x]]
   /\ last' = [call |-> "session_new"]
-  /\ UNCHANGED <<calc, today>>
+  /\ UNCHANGED <<calc, run, today>>
 
 SetLanguage(s, lang) ==
-  /\ s \in DOMAIN sess
+  /\ Idle /\ s \in DOMAIN sess
   /\ sess' = [sess EXCEPT ![s].lang = lang]
   /\ last' = [call |-> "set_language"]
-  /\ UNCHANGED <<calc, today>>
+  /\ UNCHANGED <<calc, run, today>>
 
+\* a text is a non-empty sequence of lines (the empty text is one blank line); setting it rewinds the cursor
 SetText(s, lines) ==
-  /\ s \in DOMAIN sess
-  /\ sess' = [sess EXCEPT ![s].lines = lines, ![s].fresh = TRUE]
+  /\ Idle /\ s \in DOMAIN sess
+  /\ sess' = [sess EXCEPT ![s].lines = lines, ![s].pos = 1, ![s].fresh = TRUE]
   /\ last' = [call |-> "set_text"]
+  /\ UNCHANGED <<calc, run, today>>
+
+(* ---- the evaluation loop, step by step -------------------------------- *)
+\* "each time a new text is set on it every line of that text is evaluated exactly once, in order":
+\* specified for the first execute_session after a set_text (fresh); executing the same text again
+\* without a new set_text is not described by the properties.
+BeginExec(s) ==
+  /\ Idle /\ s \in DOMAIN sess /\ sess[s].fresh
+  /\ run' = [active |-> TRUE, s |-> s, slots |-> <<>>, env0 |-> sess[s].env]
+  /\ UNCHANGED <<calc, sess, today, last>>
+
+EvalLine ==
+  /\ run.active
+  /\ LET s == run.s IN
+     /\ sess[s].pos <= Len(sess[s].lines)
+     /\ LET m == LineMeaning(Ctx(sess[s].lang, sess[s].env), sess[s].lines[sess[s].pos])
+        IN  /\ run' = [run EXCEPT !.slots = Append(@, m.slot)]
+            /\ sess' = [sess EXCEPT ![s].env = m.env, ![s].pos = @ + 1]
+  /\ UNCHANGED <<calc, today, last>>
+
+EndExec ==
+  /\ run.active
+  /\ sess[run.s].pos = Len(sess[run.s].lines) + 1
+  /\ last' = [call |-> "execute_session", s |-> run.s, status |-> TRUE, slots |-> run.slots,
+              lines |-> sess[run.s].lines, env0 |-> run.env0]
+  /\ sess' = [sess EXCEPT ![run.s].fresh = FALSE]
+  /\ run' = NoRun
   /\ UNCHANGED <<calc, today>>
 
-\* "each time a new text is set on it every line of that text is evaluated exactly once, in order":
-\* specified for the first execute_session after a set_text (fresh); a second execution of the same
-\* text without a new set_text is not described by the properties.
+\* execute(lang, text): the same loop on a private, fresh session that is dropped afterwards
+Execute(lang, lines) ==
+  /\ Idle
+  /\ LET r == RunLines(Ctx(lang, EmptyEnv), lines, <<>>)
+     IN  last' = [call |-> "execute", status |-> TRUE, slots |-> r.slots, lines |-> lines]
+  /\ UNCHANGED <<calc, sess, run, today>>
+
+\* macro-step used by trace and generator configurations
 ExecSession(s) ==
-  /\ s \in DOMAIN sess
-  /\ sess[s].fresh
+  /\ Idle /\ s \in DOMAIN sess /\ sess[s].fresh
   /\ LET r == RunLines(Ctx(sess[s].lang, sess[s].env), sess[s].lines, <<>>)
-     IN  /\ last' = [call |-> "execute_session", status |-> TRUE, slots |-> r.slots]
-         /\ sess' = [sess EXCEPT ![s].env = r.env, ![s].fresh = FALSE]
-  /\ UNCHANGED <<calc, today>>
+     IN  /\ last' = [call |-> "execute_session", s |-> s, status |-> TRUE, slots |-> r.slots,
+                     lines |-> sess[s].lines, env0 |-> sess[s].env]
+         /\ sess' = [sess EXCEPT ![s].env = r.env, ![s].pos = Len(sess[s].lines) + 1, ![s].fresh = FALSE]
+  /\ UNCHANGED <<calc, run, today>>
 
 (* ---- configuration ---------------------------------------------------- *)
-SetDecimalSep(x)  == calc' = [calc EXCEPT !.dec = x] /\ last' = [call |-> "set_dec"] /\ UNCHANGED <<sess, today>>
-SetThousandSep(x) == calc' = [calc EXCEPT !.tho = x] /\ last' = [call |-> "set_tho"] /\ UNCHANGED <<sess, today>>
-SetNumberCfg(c)   == calc' = [calc EXCEPT !.num = c] /\ last' = [call |-> "set_num"] /\ UNCHANGED <<sess, today>>
-SetPercentCfg(c)  == calc' = [calc EXCEPT !.pct = c] /\ last' = [call |-> "set_pct"] /\ UNCHANGED <<sess, today>>
-SetMoneyCfg(c)    == calc' = [calc EXCEPT !.mon = c] /\ last' = [call |-> "set_mon"] /\ UNCHANGED <<sess, today>>
+Setter(f, x, name) == Idle /\ calc' = [calc EXCEPT ![f] = x] /\ last' = [call |-> name] /\ UNCHANGED <<sess, run, today>>
+SetDecimalSep(x)  == Setter("dec", x, "set_dec")
+SetThousandSep(x) == Setter("tho", x, "set_tho")
+SetNumberCfg(c)   == Setter("num", c, "set_num")
+SetPercentCfg(c)  == Setter("pct", c, "set_pct")
+SetMoneyCfg(c)    == Setter("mon", c, "set_mon")
 
 (* ---- environment ------------------------------------------------------ *)
-Tick == today' = today + 1 /\ last' = [call |-> "tick"] /\ UNCHANGED <<calc, sess>>
+Tick == Idle /\ today' = today + 1 /\ last' = [call |-> "tick"] /\ UNCHANGED <<calc, sess, run>>
 
-(* ---- properties of the design ---------------------------------------- *)
+(* ---- properties of the design (checked by MC_SmartCalc) --------------- *)
 IsEval == last.call \in {"execute", "execute_session"}
-\* C01 (structure): one slot per line
-SlotCountOf(lines) == Len(lines)
+
+\* C01: status true and exactly one slot per line, each of an admissible kind
+SlotPerLine ==
+  IsEval => /\ last.status
+            /\ Len(last.slots) = Len(last.lines)
+            /\ \A i \in DOMAIN last.slots : last.slots[i].k \in ValueKinds \cup {"err", "empty", "unspec", "fails"}
+
+\* the step-by-step loop computes the macro-step
+LoopIsRunLines ==
+  last.call = "execute_session" =>
+     LET r == RunLines(Ctx(sess[last.s].lang, last.env0), last.lines, <<>>)
+     IN  r.slots = last.slots /\ r.env = sess[last.s].env
+
+\* C03: after a text, every name holds the value of its last successful assignment in that text
+LastAssign(lines, i) ==
+  /\ lines[i].form = "assign"
+  /\ \A j \in (i + 1)..Len(lines) : lines[j].form = "assign" => lines[j].name # lines[i].name
+LatestBinding ==
+  last.call = "execute_session" =>
+     \A i \in DOMAIN last.lines :
+        (LastAssign(last.lines, i) /\ IsValue(last.slots[i])) =>
+            /\ Bound(sess[last.s].env, last.lines[i].name)
+            /\ Lookup(sess[last.s].env, last.lines[i].name) = last.slots[i]
+
+\* C03: a line that fails leaves all bindings unchanged (checked on every reachable context)
+FailKeepsEnvOn(lineset) ==
+  \A s \in DOMAIN sess : \A l \in lineset :
+     LET m == LineMeaning(Ctx(sess[s].lang, sess[s].env), l)
+     IN  m.slot.k \in {"fails", "err"} => m.env = sess[s].env
+
+\* C04 as action properties
+EvalFramesCalc   == [][calc' = calc \/ last'.call \in {"set_dec", "set_tho", "set_num", "set_pct", "set_mon"}]_vars
+ExecuteIsPrivate == [][last'.call = "execute" /\ last' # last => sess' = sess]_vars
+SessionIsolation ==
+  [][\A s \in DOMAIN sess : (run.active /\ run.s # s) => (s \in DOMAIN sess' /\ sess'[s] = sess[s])]_vars
 =============================================================================
